@@ -3,13 +3,15 @@
 import json, sys
 pid = sys.argv[1]
 n = sys.argv[2] if len(sys.argv) > 2 else "3"
+ROUND = sys.argv[3] if len(sys.argv) > 3 else "1"
+wt_suffix = "" if ROUND == "1" else "r" + ROUND
 for l in open('/verif/properties.jsonl'):
     d = json.loads(l)
     if d['id'] == pid:
         break
 else:
     sys.exit("no such property")
-wt = f"/tmp/wt/{pid}"
+wt = f"/tmp/wt/{pid}{wt_suffix}"
 print(f"""You are helping test a verification effort for the Go library github.com/vedadiyan/genql (a MySQL-dialect SELECT engine plus a path-selector language over in-memory maps/slices). You have your own scratch git worktree of the repository at {wt} . Work ONLY inside {wt} (never touch /repo or /verif, and do not read anything under /verif).
 
 Environment: the sandbox has no network. Before every go command run:
@@ -26,7 +28,8 @@ Your task: produce {n} DIFFERENT, independent, realistic source changes ("mutant
   (a) the module still compiles,
   (b) the existing test suite still passes unchanged (all tests),
   (c) the breakage needs something specific to manifest - a particular kind of input, an unusual value, a multi-step sequence, a particular interleaving, a failure at a particular point, or two cooperating sites that each look fine alone - NOT something that ordinary use would expose at once. Think of the kind of subtle regression a real refactoring, optimisation or "cleanup" commit could introduce. Prefer changes to different functions/mechanisms for the different mutants.
-Each mutant should be small (a few lines), look plausible, and not be a no-op. Do not add build tags, do not touch test files, go.mod, or anything outside the library's .go files.
+Each mutant should be small (a few lines), look plausible, and not be a no-op.""" + ("" if ROUND == "1" else """
+Additional guidance for this round: spread the mutants over DIFFERENT source files / mechanisms that the property depends on (read the whole library first to find all of them, including helpers that several features share); at least one mutant must consist of two cooperating edits at different sites that each look harmless alone; at least one must only misbehave on a failure/empty/boundary path (an error in the middle, an empty collection, NULL, the last element, a second call on the same object); avoid the most obvious single-operator flips.""") + f""" Do not add build tags, do not touch test files, go.mod, or anything outside the library's .go files.
 
 For each mutant k = 1..{n} create the directory {wt}/MUTANTS/m<k>/ containing:
   - patch.diff : the change as a unified diff produced by `git diff` against the worktree's HEAD (must apply with `git apply` on a clean checkout of HEAD)
